@@ -111,6 +111,10 @@ static void build_axis()
     for (int e : EXPS) { for (double m : M) { v.push_back(std::ldexp(m, e)); v.push_back(-std::ldexp(m, e)); } }
     // magnitudes whose square over- or underflows: field arithmetic, modulus and reciprocal must still be exact to rounding there
     for (int e : XEXPS) { for (double m : {1.0, 1.5}) { v.push_back(std::ldexp(m, e)); v.push_back(-std::ldexp(m, e)); } }
+    // the band where exp(-2|y|) drops below the rounding unit (|y| about 8.3 float, 18.4 double: "sinh and cosh agree") and the band
+    // where exp(|y|) leaves the range (88.7 float, 709.8 double), both sides of each
+    for (int e : {4, 5}) { for (double m : M) { v.push_back(std::ldexp(m, e)); v.push_back(-std::ldexp(m, e)); } }
+    for (int e : {6, 9}) { for (double m : {1.25, 1.5}) { v.push_back(std::ldexp(m, e)); v.push_back(-std::ldexp(m, e)); } }
     // every constant the fallback bodies branch on, one ulp on either side
     for (double c : {1.0, 1.5, 0.6417, 0.1, 0.5, 2.0, 1.5707963267948966, 3.141592653589793, 0.25})
     {
